@@ -4,7 +4,17 @@ C14 helper lemmas: the inductive invariant of `FuncInput` (function_input_base).
 import TbbVerif.Model.C14
 
 namespace TbbVerif.C14
+open TbbVerif.Generated.C14 (tryputFree occupyFree doneFree fwdFree doneDecrement fwdClearsBusy regPredSetsBusy)
 namespace FuncInput
+
+/-! ### the regenerated pieces of the handlers (E-GEN): what the source says NOW must be what the proofs use -/
+theorem gen_tryput (c m : Nat) : tryputFree c m = decide (c < m) := rfl
+theorem gen_occupy (c m : Nat) : occupyFree c m = decide (c < m) := rfl
+theorem gen_done (c m : Nat) : doneFree c m = decide (c < m) := rfl
+theorem gen_fwd (c m : Nat) : fwdFree c m = decide (c < m) := rfl
+theorem gen_dec : doneDecrement = 1 := rfl
+theorem gen_fcb : fwdClearsBusy = true := rfl
+theorem gen_rps : regPredSetsBusy = true := rfl
 
 /-- The inductive invariant of one function node. -/
 structure Inv (s : FuncInput) : Prop where
@@ -105,7 +115,7 @@ theorem pqr_inv {s : FuncInput} (h : PreInv s) (ans : List (Option Nat)) : Inv (
       · intro _; simp [queued, hq]
 
 theorem step_maxc (s : FuncInput) (o : FOp) : (step s o).1.maxc = s.maxc := by
-  cases o <;> simp only [step]
+  cases o <;> simp only [step, gen_tryput, gen_occupy, gen_done, gen_fwd, gen_dec, gen_fcb, gen_rps, decide_eq_true_eq, Bool.not_true, Bool.and_false]
   · split; rfl
     split; rfl
     split <;> rfl
@@ -123,7 +133,7 @@ theorem step_maxc (s : FuncInput) (o : FOp) : (step s o).1.maxc = s.maxc := by
   · split <;> rfl
 
 theorem step_queue_isSome (s : FuncInput) (o : FOp) : (step s o).1.queue.isSome = s.queue.isSome := by
-  cases o <;> simp only [step]
+  cases o <;> simp only [step, gen_tryput, gen_occupy, gen_done, gen_fwd, gen_dec, gen_fcb, gen_rps, decide_eq_true_eq, Bool.not_true, Bool.and_false]
   · split; rfl
     split; rfl
     split
@@ -146,7 +156,7 @@ theorem inv_step {s : FuncInput} (h : Inv s) (o : FOp) : Inv (step s o).1 := by
   obtain ⟨h1, h2, h3, h4, h5, h6⟩ := h
   cases o with
   | tryput m =>
-    simp only [step]
+    simp only [step, gen_tryput, gen_occupy, gen_done, gen_fwd, gen_dec, gen_fcb, gen_rps, decide_eq_true_eq, Bool.not_true, Bool.and_false]
     split
     · rename_i h0
       refine ⟨fun hm => absurd h0 hm, h2, ?_, h4, h5, h6⟩
@@ -175,7 +185,7 @@ theorem inv_step {s : FuncInput} (h : Inv s) (o : FOp) : Inv (step s o).1 := by
           · intro hm; exact absurd hm h0
         · exact ⟨h1, h2, h3, h4, h5, h6⟩
   | occupy m =>
-    simp only [step]
+    simp only [step, gen_tryput, gen_occupy, gen_done, gen_fwd, gen_dec, gen_fcb, gen_rps, decide_eq_true_eq, Bool.not_true, Bool.and_false]
     split
     · rename_i h0
       refine ⟨fun hm => absurd h0 hm, h2, ?_, h4, h5, h6⟩
@@ -195,7 +205,7 @@ theorem inv_step {s : FuncInput} (h : Inv s) (o : FOp) : Inv (step s o).1 := by
         · intro hm; exact absurd hm h0
       · exact ⟨h1, h2, h3, h4, h5, h6⟩
   | done m ans =>
-    simp only [step]
+    simp only [step, gen_tryput, gen_occupy, gen_done, gen_fwd, gen_dec, gen_fcb, gen_rps, decide_eq_true_eq, Bool.not_true, Bool.and_false]
     split
     · rename_i hmem
       have hlen : 0 < s.running.length := List.length_pos_of_mem hmem
@@ -230,7 +240,7 @@ theorem inv_step {s : FuncInput} (h : Inv s) (o : FOp) : Inv (step s o).1 := by
           omega
     · exact ⟨h1, h2, h3, h4, h5, h6⟩
   | fwd ans =>
-    simp only [step]
+    simp only [step, gen_tryput, gen_occupy, gen_done, gen_fwd, gen_dec, gen_fcb, gen_rps, decide_eq_true_eq, Bool.not_true, Bool.and_false]
     split
     · rename_i hlt
       have hp : PreInv s := ⟨h1, hlt, h3, fun hne => by have := h4 hne; omega,
@@ -264,7 +274,7 @@ theorem inv_step {s : FuncInput} (h : Inv s) (o : FOp) : Inv (step s o).1 := by
       refine ⟨h1, h2, h3, h4, ?_, h6⟩
       intro _ _; right; show s.conc = s.maxc; omega
   | regPred p =>
-    simp only [step]
+    simp only [step, gen_tryput, gen_occupy, gen_done, gen_fwd, gen_dec, gen_fcb, gen_rps, decide_eq_true_eq, Bool.not_true, Bool.and_false]
     split
     · rename_i hb
       refine ⟨h1, h2, h3, h4, ?_, h6⟩
@@ -272,7 +282,7 @@ theorem inv_step {s : FuncInput} (h : Inv s) (o : FOp) : Inv (step s o).1 := by
     · refine ⟨h1, h2, h3, h4, ?_, h6⟩
       intro _ _; left; rfl
   | remPred p =>
-    simp only [step]
+    simp only [step, gen_tryput, gen_occupy, gen_done, gen_fwd, gen_dec, gen_fcb, gen_rps, decide_eq_true_eq, Bool.not_true, Bool.and_false]
     refine ⟨h1, h2, h3, h4, ?_, h6⟩
     intro hq hp
     apply h5 hq
@@ -287,6 +297,68 @@ theorem inv_run (maxc : Nat) (q : Bool) (ops : List FOp) : Inv ((mach maxc q).ru
 theorem run_maxc (maxc : Nat) (q : Bool) (ops : List FOp) : ((mach maxc q).run ops).1.maxc = maxc :=
   Mach.inv_run (mach maxc q) (fun s => s.maxc = maxc) (by simp [mach, new])
     (fun s o h => by simp [mach, step_maxc, h]) ops
+
+/-! ### what single operations do (used by the graph-level proofs) -/
+
+/-- `try_put`: a rejected message leaves the node untouched; an accepted one is recorded exactly once, as a
+new body invocation or at the back of the queue. -/
+theorem tryput_spec (s : FuncInput) (m : Nat) :
+    (step s (.tryput m) = (s, .rejected)) ∨
+    ((step s (.tryput m)).2 = .run m ∧ (step s (.tryput m)).1.running = m :: s.running ∧
+      (step s (.tryput m)).1.queued = s.queued ∧ (step s (.tryput m)).1.accepted = m :: s.accepted ∧
+      (step s (.tryput m)).1.finished = s.finished ∧ (step s (.tryput m)).1.preds = s.preds) ∨
+    ((step s (.tryput m)).2 = .queued ∧ (step s (.tryput m)).1.running = s.running ∧
+      (step s (.tryput m)).1.queued = s.queued ++ [m] ∧ (step s (.tryput m)).1.accepted = m :: s.accepted ∧
+      (step s (.tryput m)).1.finished = s.finished ∧ (step s (.tryput m)).1.preds = s.preds) := by
+  simp only [step, gen_tryput, gen_occupy, gen_done, gen_fwd, gen_dec, gen_fcb, gen_rps, decide_eq_true_eq, Bool.not_true, Bool.and_false]
+  split
+  · right; left; simp [queued]
+  · split
+    · right; left; simp [queued]
+    · split
+      · rename_i q hq; right; right; simp [queued, hq]
+      · left; rfl
+
+/-- A node that never rejects: queueing policy or unlimited concurrency. -/
+def accepting (s : FuncInput) : Prop := s.queue.isSome = true ∨ s.maxc = 0
+
+theorem tryput_accepting {s : FuncInput} (h : accepting s) (m : Nat) : (step s (.tryput m)).2 ≠ .rejected := by
+  simp only [step, gen_tryput, gen_occupy, gen_done, gen_fwd, gen_dec, gen_fcb, gen_rps, decide_eq_true_eq, Bool.not_true, Bool.and_false]
+  split
+  · simp
+  · split
+    · simp
+    · split
+      · simp
+      · rename_i h0 _ _ hq
+        rcases h with h | h
+        · simp [hq] at h
+        · exact absurd h h0
+
+theorem step_accepting {s : FuncInput} (h : accepting s) (o : FOp) : accepting (step s o).1 := by
+  unfold accepting at *
+  rw [step_queue_isSome, step_maxc]; exact h
+
+/-- `app_body_bypass` on a node without pull-mode predecessors. -/
+theorem done_spec {s : FuncInput} (hp : s.preds = []) {m : Nat} (hm : m ∈ s.running) :
+    ∃ nx, (step s (.done m [])).2 = .next nx [] ∧
+      (step s (.done m [])).1.running = (match nx with | some m' => m' :: s.running.erase m | none => s.running.erase m) ∧
+      (step s (.done m [])).1.accepted = s.accepted ∧
+      (step s (.done m [])).1.finished = m :: s.finished ∧
+      (step s (.done m [])).1.preds = [] := by
+  simp only [step, hm, if_true, gen_tryput, gen_occupy, gen_done, gen_fwd, gen_dec, gen_fcb, gen_rps, decide_eq_true_eq, Bool.not_true, Bool.and_false]
+  split
+  · exact ⟨none, by simp [hp]⟩
+  · split
+    · simp only [pqr]
+      split
+      · rename_i m' q hq; exact ⟨some m', by simp [hp]⟩
+      · exact ⟨none, by simp [hp]⟩
+      · simp [hp, getItem]
+    · exact ⟨none, by simp [hp]⟩
+
+theorem done_bad {s : FuncInput} {m : Nat} (hm : m ∉ s.running) (ans) : step s (.done m ans) = (s, .bad) := by
+  simp [step, hm]
 
 end FuncInput
 end TbbVerif.C14
